@@ -249,6 +249,7 @@ def _inner_count(allp, p, t, norm):
         return None
     n_key = f_key = None
     src = None
+    srcs = []
     pred_ok = True
     FIRSTIDX = r"\.0\(as:Var\(\.kind\(\.0\(as:Some\(std::iter::Iterator::next\((?:std::iter::IntoIterator::into_iter|core::slice::<impl \[T\]>::iter)\(nodes\)\)\)\)\)\)\)"
     for q in allp:
@@ -263,8 +264,8 @@ def _inner_count(allp, p, t, norm):
             j, x = nd
             X = x[1].args[0].args[0]
             if not u.general:
-                if not isinstance(X, Unknown) and src is None:
-                    src = X
+                if not isinstance(X, Unknown):
+                    srcs.append(X)
                 continue
             if x[2] != "Some" or u.post is None:
                 continue
@@ -276,7 +277,7 @@ def _inner_count(allp, p, t, norm):
             if not (re.match(r"^(?:binop:Eq|std::cmp::PartialEq::eq)\(%s, idx\)$" % item, cs_) or re.match(r"^(?:binop:Eq|std::cmp::PartialEq::eq)\(idx, %s\)$" % item, cs_)):
                 pred_ok = False
             changed = {L: v for L, v in u.pre.items() if isinstance(v, Unknown) and L in u.post and u.post[L].key() != v.key()}
-            incs = [L for L, v in changed.items() if show(u.post[L]) in ("binop:Add(%s, 1_usize)" % show(v), "binop:Add(%s, usize:1)" % show(v))]
+            incs = [L for L, v in changed.items() if re.match(r"^binop:Add\(%s, (1_\w+|\w+:1)\)$" % re.escape(show(v)), show(u.post[L]))]
             poss = [L for L, v in changed.items() if re.match(r"^\.0\(\.0\(as:Some\(std::iter::Iterator::next\(", show(u.post[L]))]
             if ds[0][2] is True:
                 if len(incs) != 1:
@@ -289,14 +290,21 @@ def _inner_count(allp, p, t, norm):
             else:
                 if incs:
                     return False
+    def base_of(v_):
+        while isinstance(v_, App) and len(v_.args) >= 1 and (len(v_.args) == 1 and v_.fn in (
+                "std::iter::IntoIterator::into_iter", "std::iter::Iterator::enumerate", "core::slice::<impl [T]>::iter", "smallvec::SmallVec::<A>::iter", "deref", "std::ops::Deref::deref",
+                "std::ops::DerefMut::deref_mut", "smallvec::SmallVec::<A>::as_mut_slice", "smallvec::SmallVec::<A>::as_slice") or
+                (v_.fn in ("std::ops::IndexMut::index_mut", "std::ops::Index::index") and len(v_.args) == 2 and show(v_.args[1]).startswith("RangeFull"))):
+            v_ = v_.args[0]
+        return v_
+    # the list as the general node step sees it (the first, not yet widened node step scans the freshly built list)
+    for cand in srcs:
+        if isinstance(base_of(cand), (Unknown, Sym)):
+            src = cand
+            break
     if src is None or n_key is None or not pred_ok:
         return False
-    base_ = src
-    while isinstance(base_, App) and len(base_.args) == 1 and base_.fn in (
-            "std::iter::IntoIterator::into_iter", "std::iter::Iterator::enumerate", "core::slice::<impl [T]>::iter", "smallvec::SmallVec::<A>::iter", "deref", "std::ops::Deref::deref"):
-        base_ = base_.args[0]
-    if not isinstance(base_, (Unknown, Sym)):
-        return False
+    base_ = base_of(src)
     occ_term = norm(show(base_))
     enumerated = "Iterator::enumerate(" in show(src)
     count_s = "std::iter::Iterator::count(std::iter::Iterator::filter(%score::slice::<impl [T]>::iter(%s)%s, closure<{closure#0}>))" % (
